@@ -209,3 +209,49 @@ def source_fields(fn, op, depth=4):
     if rv["k"] in ("ref", "copy_for_deref"):
         return place_fields(rv["pl"]) or source_fields(fn, {"k": "copy", "pl": rv["pl"]}, depth - 1)
     return []
+
+
+def forward_taint(fn, is_source_place):
+    """flow-insensitive forward taint inside one body: locals that (transitively) hold a value read from a source place.
+    Propagates through assignments, borrows, aggregates (closure captures) and from call arguments to call results.
+    Returns (tainted locals, [switch blocks whose discriminant is tainted], [first source statement line])."""
+    from .prog import operands_of_stmt
+    T = set()
+    first = []
+
+    def place_tainted(pl):
+        return pl["l"] in T or is_source_place(pl)
+
+    def op_tainted(op):
+        return op.get("k") in ("copy", "move") and place_tainted(op["pl"])
+
+    changed = True
+    while changed:
+        changed = False
+        for i, s in fn.stmts():
+            if s["k"] != "assign":
+                continue
+            rv = s["rv"]
+            hit = any(op_tainted(o) for o in operands_of_stmt(s))
+            if not hit and "pl" in rv and isinstance(rv["pl"], dict) and "l" in rv["pl"]:
+                hit = place_tainted(rv["pl"])
+            if hit:
+                if is_source_place(rv.get("pl") or {"l": -1, "p": []}) or any(o.get("k") in ("copy", "move") and is_source_place(o["pl"])
+                                                                               for o in operands_of_stmt(s)):
+                    first.append(s["line"])
+                l = s["pl"]["l"]
+                if l not in T and not is_source_place(s["pl"]):
+                    T.add(l)
+                    changed = True
+        for c in fn.calls:
+            if c.dest is None or c.dest["l"] in T:
+                continue
+            if any(op_tainted(a) for a in c.args) and fn.local_ty(c.dest["l"]) != "()":
+                T.add(c.dest["l"])
+                changed = True
+    sinks = []
+    for b in sorted(fn.reach):
+        t = fn.blocks[b]["term"]
+        if t["k"] == "switch" and t["discr"]["k"] in ("copy", "move") and place_tainted(t["discr"]["pl"]):
+            sinks.append(b)
+    return T, sinks, sorted(set(first))
